@@ -58,6 +58,7 @@ pub fn run(args: &[String]) -> bool {
         "zkir-into-bytes-biguint" => sc::zkir_into_bytes_biguint(n(1) as u32, n(2) as usize),
         "zkir-into-bytes-native" => sc::zkir_into_bytes_native_offcircuit(n(1) as usize),
         "g1-decode-offsubgroup" => sc::g1_decoder_accepts_outside_subgroup(args.get(1).map(|s| s.as_str()).unwrap_or("hashable")),
+        "poseidon-g1-truncated" => sc::poseidon_g1_reader_accepts_truncated(),
         "zkir-mod-exp" => sc::zkir_mod_exp_offcircuit(n(1), n(2), n(3)),
         "vk-bytes-length" => crate::scenarios17::vk_bytes_length_real(args.get(1).map(|s| s.as_str()).unwrap_or("rawbytes")),
         "pk-bytes-length" => crate::scenarios17::pk_bytes_length_and_roundtrip_real(args.get(1).map(|s| s.as_str()).unwrap_or("rawbytes")),
